@@ -163,12 +163,12 @@ func cosmosTxSignedBy(w *world.World, declared, signerKey *world.Acct, accNum, s
 }
 
 type c06Obs struct {
-	Findings []ev.Finding
-	Outcome  string
-	Hashes   [][]byte // per block: hash of every store except the fee market's
-	BaseFees []string
+	Findings    []ev.Finding
+	Outcome     string
+	Hashes      [][]byte // per block: hash of every store except the fee market's
+	BaseFees    []string
 	TwinSkipped int
-	Unauth []bool // flat index -> judged unauthorised
+	Unauth      []bool // flat index -> judged unauthorised
 }
 
 // c06Run executes the case. authorised[i] is decided by construction; skipUnauth drops unauthorised items (twin run).
